@@ -54,11 +54,12 @@ fn parse_cfg_match_inner<'a>(
         {
             let item = match parser.parse_item(ForceCollect::No) {
                 Ok(Some(item_ptr)) => {
-                    // The parser recovered from a syntax error: the count it leaves behind in the
-                    // session would make the formatting that follows give up on its next macro.
+                    // The parser may have recovered from a syntax error (in an arm the compiler
+                    // never looks into, say): the count it leaves behind in the session would make
+                    // the formatting that follows give up on its next macro. The item -- and the
+                    // modules declared in this call -- are still what they are.
                     if parser.psess.dcx().has_errors().is_some() {
                         parser.psess.dcx().reset_err_count();
-                        return Err("Failed to parse an item inside cfg_match block");
                     }
                     item_ptr.into_inner()
                 }
